@@ -168,7 +168,7 @@ func runConcOn(u *universe, idx int, p *concPlan, t *dbUnderTest, stats *concSta
 
 	// every assertion is signed before the clients start
 	pool := make([][]*signed, len(p.Clients))
-	byEnc := map[string]*signed{}
+	planned := map[*signed]bool{}
 	for c, ops := range p.Clients {
 		pool[c] = make([]*signed, len(ops))
 		for i, o := range ops {
@@ -176,7 +176,7 @@ func runConcOn(u *universe, idx int, p *concPlan, t *dbUnderTest, stats *concSta
 				id := p.Idents[o.Ident]
 				s := u.get(desc{Type: id.Type, PK: id.PK, Rev: o.Rev, Format: o.Format, Variant: o.Variant})
 				pool[c][i] = s
-				byEnc[s.enc] = s
+				planned[s] = true
 			}
 		}
 	}
@@ -186,8 +186,8 @@ func runConcOn(u *universe, idx int, p *concPlan, t *dbUnderTest, stats *concSta
 	}
 	// observation of a returned assertion as a register output
 	observe := func(a asserts.Assertion) (int, regOutput, error) {
-		s := byEnc[string(asserts.Encode(a))]
-		if s == nil {
+		s := u.lookup(a)
+		if s == nil || !planned[s] {
 			return 0, regOutput{}, fmt.Errorf("returned assertion was never added: %v rev %d format %d", a.Ref(), a.Revision(), a.Format())
 		}
 		return identIdx[s.d.identity()], regOutput{ok: true, rev: s.d.Rev, format: s.d.Format, variant: s.d.Variant}, nil
@@ -278,10 +278,8 @@ func runConcOn(u *universe, idx int, p *concPlan, t *dbUnderTest, stats *concSta
 					}
 					seen := map[int]regOutput{}
 					for _, a := range as {
-						if byEnc[string(asserts.Encode(a))] == nil {
-							if _, planned := identIdx[identityOf(a.Ref().Type.Name, a.Ref().PrimaryKey)]; !planned {
-								continue // fixture (prerequisite / predefined)
-							}
+						if _, ours := identIdx[identityOf(a.Ref().Type.Name, a.Ref().PrimaryKey)]; !ours {
+							continue // fixture (prerequisite / predefined): no identity of this plan
 						}
 						k, out, oerr := observe(a)
 						if oerr != nil {
